@@ -8,6 +8,7 @@ package bttest
 import (
 	"cloud.google.com/go/bigtable"
 	btpb "cloud.google.com/go/bigtable/apiv2/bigtablepb"
+	"google.golang.org/grpc/codes"
 )
 
 func H_C18_scan() { c18Run(vBound("writers", 1, 2), false) }
@@ -22,6 +23,10 @@ func c18Run(nw int, rowset bool) {
 	tbl := s.tables[vTable]
 	// row "a": 1025 versions in one column (concrete), forces a flush after the first row
 	big := &btpb.Column{Qualifier: []byte("q")}
+	maxKind := vBound("kinds", 1, 2)
+	if rowset {
+		maxKind = 3 // the cheap single-message variant also tries a rejected batch entry
+	}
 	ncells := 1025
 	if rowset {
 		ncells = 1 // single-message variant: the RowSet shape is the subject, not the lock hand-over
@@ -46,7 +51,7 @@ func c18Run(nw int, rowset bool) {
 	}
 	var ws []wr
 	for i := 0; i < nw; i++ {
-		ws = append(ws, wr{key: targets[vChoice("w.target", 0, vBound("targets", 1, 4))], kind: vChoice("w.kind", 0, vBound("kinds", 1, 2)), val: vNondetBytes("w.val", 1)})
+		ws = append(ws, wr{key: targets[vChoice("w.target", 0, vBound("targets", 1, 4))], kind: vChoice("w.kind", 0, maxKind), val: vNondetBytes("w.val", 1)})
 	}
 	for _, w := range ws {
 		w := w
@@ -60,6 +65,12 @@ func c18Run(nw int, rowset bool) {
 				_, err := s.MutateRow(vCtx(), &btpb.MutateRowRequest{TableName: vTable, RowKey: []byte(w.key), Mutations: []*btpb.Mutation{
 					{Mutation: &btpb.Mutation_DeleteFromRow_{DeleteFromRow: &btpb.Mutation_DeleteFromRow{}}}}})
 				vAssert(err == nil, "writer-ok")
+			case 3: // a batch entry whose second mutation is invalid: rejected as a whole, nothing may show
+				st := &vMutateStream{}
+				err := s.MutateRows(&btpb.MutateRowsRequest{TableName: vTable, Entries: []*btpb.MutateRowsRequest_Entry{{RowKey: []byte(w.key), Mutations: []*btpb.Mutation{
+					{Mutation: &btpb.Mutation_SetCell_{SetCell: &btpb.Mutation_SetCell{FamilyName: "f", ColumnQualifier: []byte("q"), TimestampMicros: 1000, Value: w.val}}},
+					{Mutation: &btpb.Mutation_SetCell_{SetCell: &btpb.Mutation_SetCell{FamilyName: "nosuch", ColumnQualifier: []byte("q"), TimestampMicros: 1000, Value: w.val}}}}}}}, st)
+				vAssert(err == nil && len(st.msgs) == 1 && len(st.msgs[0].Entries) == 1 && st.msgs[0].Entries[0].Status.Code != int32(codes.OK), "writer-entry-rejected")
 			case 2: // read-modify-write append
 				_, err := s.ReadModifyWriteRow(vCtx(), &btpb.ReadModifyWriteRowRequest{TableName: vTable, RowKey: []byte(w.key),
 					Rules: []*btpb.ReadModifyWriteRule{{FamilyName: "f", ColumnQualifier: []byte("q"), Rule: &btpb.ReadModifyWriteRule_AppendValue{AppendValue: w.val}}}})
@@ -99,7 +110,7 @@ func c18Run(nw int, rowset bool) {
 		k := string(r.key)
 		written := false
 		for _, w := range ws {
-			if w.key == k {
+			if w.key == k && w.kind != 3 {
 				written = true
 			}
 		}
@@ -124,7 +135,7 @@ func c18Run(nw int, rowset bool) {
 	for _, k := range keys {
 		written := false
 		for _, w := range ws {
-			if w.key == k {
+			if w.key == k && w.kind != 3 {
 				written = true
 			}
 		}
